@@ -56,6 +56,7 @@ fn main() {
         "C15" => vcheck::checks::c15::run(tier),
         "C16" => vcheck::checks::c16::run(tier),
         "C17" => vcheck::checks::c17::run(tier),
+        "C18" => vcheck::checks::c18::run(tier),
         "C19" => vcheck::checks::c19::run(tier),
         _ => {
             eprintln!("no check for {}", prop);
